@@ -184,7 +184,7 @@ def sym_msg(W, enum_ty, vname, crate=None, prefix='m', overrides=None, veclen=1)
             fields.append(overrides[fname])
         else:
             fields.append(fresh_value(I, W.st, fty, td.crate, '%s_%s_%s' % (prefix, vn, fname if fname else i), 0, Opts))
-    return Agg(td.name, fields, vi, vn)
+    return Agg(td.name, fields, vi, vn, td=td)
 
 
 # ---------------------------------------------------------------------- replay scenario of a world
